@@ -8,7 +8,7 @@ from lib import (strip_refs, walk, nodes, ends, Cfg, src, psrc, outcome, is_ret_
                  pat_top_variants, short, calls_in, block_last)
 
 EXPLANATION = (
-    "Decides the policy as a decision table read from the source, not the behaviour on every schema: (D1-cut) in the CFG of the "
+    "Decides the policy by evaluating convert_rust_extension over the documented combinations (and, as explanations, as a decision table read from the source), not the behaviour on every schema nor semver's own matching: (D1-cut) in the CFG of the "
     "function that matches on CrateVers, the construction of the substituted native type is unreachable once the blocks that test "
     "the crate-version or unknown-crate policy are removed; (D1-arms) under 'crate configured' Any continues, Version continues "
     "only under a guard calling VersionReq::matches (not negated), every other arm returns None; under 'not configured' Allow "
